@@ -130,6 +130,8 @@ def conv_sym(A, F, D, is_torus, stride, padding, ldil, rdil):
                         n = zi(N[d])
                         if valid(z3.And(q >= 0, q < n)):
                             s = q
+                        elif sym.concrete_int(N[d]) is not None and not valid(z3.And(q >= -n, q < 2 * n)):
+                            s = q % n                  # periodic image, several periods (concrete extent: linear)
                         elif valid(q < 0):
                             s = q + n
                         elif valid(q >= n):
